@@ -104,12 +104,21 @@ def run_history(cond, prop_tags, raw, make, ops, history, battery, snapshot):
            "snap_before": snap_before, "snap_after": chx.guarded(snapshot, subject),
            "battery": chx.guarded(battery, subject)}
     # the same on a fresh object, in the same path
-    fresh = make()
+    # ops whose name starts with "SUBJECT:" change the subject itself (through its public API): they are part of
+    # what "a freshly built equal object" means, so they are replayed on the fresh objects; queries are not.
+    def replay_mutations(obj, upto):
+        for code in history[:upto]:
+            name, fn = ops[code]
+            if name.startswith("SUBJECT:"):
+                fn(obj)
+        return obj
     if history:
+        fresh = replay_mutations(make(), len(history) - 1)
         name, fn = ops[history[-1]]
         obs["last_fresh"] = chx.guarded(lambda: view(fn(fresh)))
-    fresh2 = make()
+    fresh2 = replay_mutations(make(), len(history))
     obs["battery_fresh"] = chx.guarded(battery, fresh2)
+    obs["snap_fresh"] = chx.guarded(snapshot, fresh2)
     return obs
 
 
@@ -125,6 +134,12 @@ def history_oracle(args, obs):
     if sb[0] == "exc" or sa[0] == "exc":
         bad = sb if sb[0] == "exc" else sa
         fails.append(chx.exc_failure("snapshot", bad, tags=tags))
+    elif any(t.startswith("SUBJECT:") for t in trace):
+        sf = obs["snap_fresh"]
+        if sf[0] == "ok" and sf[1] != sa[1]:
+            fails.append({"kind": "mutation", "op": "snapshot", "tags": tags,
+                          "detail": "after %r the structure is %r; the same changes on a fresh object give %r" % (
+                              trace, sa[1], sf[1])})
     elif sb[1] != sa[1]:
         fails.append({"kind": "mutation", "op": "snapshot", "tags": tags,
                       "detail": "history %r changed the structure of its operand: %r -> %r" % (trace, sb[1], sa[1])})
@@ -201,11 +216,24 @@ FA_OPS = [
     ("to_fst", lambda x: sorted(map(repr, x.to_fst().translate(["a"])))),
     ("to_networkx", lambda x: sorted(map(repr, x.to_networkx().nodes))),
     ("minimize+mutate", lambda x: _mut(x.minimize())),
+    ("other_difference_subject", lambda x: _other_fa().get_difference(x)),
+    ("other_intersection_subject", lambda x: _other_fa().get_intersection(x)),
+    ("get_complement+mutate", lambda x: _mut(x.get_complement())),
 ]
 
 
 def fa_snapshot(x):
-    return plain_sorted(plain_fa(x))
+    p = plain_fa(x)
+    p["symbols"] = [a.value for a in x.symbols]
+    return plain_sorted(p)
+
+
+def _other_fa():
+    o = EpsilonNFA()
+    o.add_transitions([(0, "a", 1), (1, "c", 1), (0, "d", 0)])
+    o.add_start_state(0)
+    o.add_final_state(1)
+    return o
 
 
 def plain_sorted(p):
@@ -218,6 +246,7 @@ def fa_battery(x):
             ("accepts[a,b]", view(x.accepts(["a", "b"]))),
             ("is_empty", view(x.is_empty())), ("is_deterministic", view(x.is_deterministic())),
             ("to_deterministic", view(x.to_deterministic())), ("minimize", view(x.minimize())),
+            ("get_complement", view(x.get_complement())),
             ("get_accepted_words(2)", view([[s.value for s in w] for w in chx.take(x.get_accepted_words(2), 30)]))]
 
 
@@ -318,6 +347,7 @@ CFG_SUBJECTS = [
     [(0, [2]), (1, [3])],               # S -> a ; A -> b (unreachable)
     [(0, [2]), (0, [1, 1]), (1, [])],   # S -> a | A A ; A -> eps   (generating early, nullable through the 2nd rule)
     [(0, [1, 3]), (1, [1, 1]), (1, [2])],  # S -> A b ; A -> A A | a  (infinite)
+    [(0, [1, 3]), (1, [2]), (1, [])],   # S -> A b ; A -> a | eps   (nullable variable, epsilon not generated)
 ]
 
 
@@ -395,7 +425,7 @@ def cfg_battery(g):
 
 def c19_cfg(subject: int, ops: H3, k: int) -> bool:
     """
-    pre: 0 <= subject < 7 and 1 <= k <= 3
+    pre: 0 <= subject < 8 and 1 <= k <= 3
     pre: all(0 <= ops[i] < NCFGOPS and (i < k or ops[i] == 0) for i in range(3))
     pre: pinned(subject=subject, k=k, o0=ops[0], o1=ops[1])
     post: _
@@ -425,8 +455,8 @@ PDA_SUBJECTS = [
 
 
 def _pda_mut(p):
-    p.add_transition(0, "b", "Z", 1, [])
-    p.add_final_state(0)
+    p.add_transition(1, "b", "Z", 2, [])
+    p.add_final_state(1)
     return "mutated-returned-pda"
 
 
@@ -442,6 +472,11 @@ PDA_OPS = [
     ("to_networkx", lambda p: sorted(map(repr, p.to_networkx().nodes))),
     ("to_cfg.to_pda", lambda p: p.to_cfg().to_pda()),
     ("from_networkx+mutate", lambda p: _pda_mut(PDA.from_networkx(p.to_networkx()))),
+    ("SUBJECT:add_transition_new_state", lambda p: p.add_transition(1, "a", "Z", "n", ["X", "Z"])),
+    ("SUBJECT:add_final_state", lambda p: p.add_final_state(1)),
+    # a new state that precedes the existing ones in set order (states are 1 and 2), made the start state
+    ("SUBJECT:new_start_state_0", lambda p: (p.add_transition(0, "c", "Z", 1, ["Z"]), p.set_start_state(0))),
+    ("to_final_state.to_empty_stack.to_cfg", lambda p: p.to_final_state().to_empty_stack().to_cfg()),
 ]
 
 
@@ -466,7 +501,7 @@ def c19_pda(subject: int, ops: H3, k: int) -> bool:
     trans, fin = PDA_SUBJECTS[enc.pick(subject, len(PDA_SUBJECTS))]
     kk = enc.pick(k, 4)
     hist = [enc.pick(ops[i], len(PDA_OPS)) for i in range(kk)]
-    spec = enc.pda_spec(trans, fin)
+    spec = enc.pda_spec(trans, [f + 0 for f in fin], states=(1, 2))
     obs = run_history("c19_pda", [], raw, lambda: enc.build_pda(spec), PDA_OPS, hist, pda_battery, pda_snapshot)
     return chx.judge("C19", "c19_pda", raw, ({"transitions": trans, "finals": fin}, hist), obs, history_oracle)
 
@@ -506,7 +541,7 @@ CONDS = [
                    "mutation of the automaton returned by to_epsilon_nfa()", "thorough": "up to 3 calls"},
          FUNCS, RULE, assumptions=ASSUME),
     Cond("C19", c19_cfg, _sh(len(CFG_SUBJECTS), len(CFG_OPS)),
-         {"quick": "7 grammars x histories of 1-2 calls out of 20 ops (cached queries, normal form, intersections "
+         {"quick": "8 grammars x histories of 1-2 calls out of 20 ops (cached queries, normal form, intersections "
                    "with a fresh / shared / mutated DFA, g and g.reverse() against the same automaton, to_pda.to_cfg)",
           "thorough": "up to 3 calls"},
          FUNCS, RULE, assumptions=ASSUME),
